@@ -16,7 +16,7 @@ ASSUMPTIONS = ["observation points are step boundaries (no asynchronous interrup
 
 def cases(seed, tier):
     sch = Sched(seed)
-    n = 520 if tier == "quick" else 40000
+    n = 520 if tier == "quick" else 25000
     out = []
     for k in range(n):
         r = random.Random(sch.np_seed(f"c07.{k}"))
